@@ -384,8 +384,19 @@ func check(c Case, r *vh.R) {
 		r.Failf("accepted-long-lifetime", "NewVerifier accepted a signature valid for more than 7 days")
 		return
 	}
+	// All results are obtained first and judged afterwards: a result must stay what it was when
+	// later exchanges are verified with the same Verifier (no aliasing of verifier state).
+	type held struct {
+		res  *signature.VerifyExchangeResult
+		verr error
+	}
+	helds := make([]held, len(target.Exchanges))
 	for i, e := range target.Exchanges {
 		res, verr := ver.VerifyExchange(e)
+		helds[i] = held{res, verr}
+	}
+	for i, e := range target.Exchanges {
+		res, verr := helds[i].res, helds[i].verr
 		o := origs[i]
 		if verr != nil {
 			r.Class("rejected-exchange")
@@ -430,8 +441,13 @@ func verifyAll(b *bundle.Bundle, origs []origEx, signers []SignerSpec, t int64, 
 	if err != nil {
 		return fmt.Sprintf("%s: NewVerifier at t=%d: %v", when, t, err)
 	}
+	ress := make([]*signature.VerifyExchangeResult, len(b.Exchanges))
+	errs := make([]error, len(b.Exchanges))
 	for i, e := range b.Exchanges {
-		res, err := ver.VerifyExchange(e)
+		ress[i], errs[i] = ver.VerifyExchange(e)
+	}
+	for i := range b.Exchanges {
+		res, err := ress[i], errs[i]
 		o := origs[i]
 		if err != nil {
 			return fmt.Sprintf("%s: VerifyExchange(%s): %v", when, o.url, err)
